@@ -224,6 +224,10 @@ structure View where
   buf : Buf
   deriving Repr
 
+/-- The view a generated structure returns for a `w`-bit field of type `ty`. -/
+def fieldView (ty : Ty) (direct : Bool) (bb : BitBlock) (o w : Nat) : View :=
+  { ty := ty, kBits := w, buf := fieldBuf direct bb o w }
+
 /-- `IntView::ConvertToSigned`, `EMBOSS_SYSTEM_IS_TWOS_COMPLEMENT` branch:
 `static_cast<ValueType>(data << (VW - kBits)) >> (VW - kBits)`; `data` has the buffer's
 value type (width `BW`, promoted), `ValueType` is the `VW`-bit signed type; `>>` on a
